@@ -25,6 +25,9 @@ type SliceV struct {
 	Elem          types.Type
 	Region        *Region
 	Off, Len, Cap *Term
+	// IsNil: for a slice returned by a function used through its contract, whether it is the nil slice (unknown; a nil
+	// slice has length 0). Nil for every other slice value (whose nil-ness is structural: Region == nil).
+	IsNil *Term
 }
 
 // ArrayV: a fixed-size array value living in a region (the region is the array's storage).
